@@ -406,6 +406,12 @@ fn body(ctx: &Ctx) -> (Summary, Meta) {
         let mut axes = alpha::subsets_axes(&vs, "v", 3, if quick { 4 } else { 6 });
         axes.extend(alpha::full_word_axes(&alpha::h3(), "w", 3, if quick { 5 } else { 7 }, &[0.0, -3.0]));
         axes.extend(alpha::long_word_axes(&alpha::h4(), "L", &[9, 17], 1, &[1.25]));
+        if !f32 {
+            // long axes with convex and concave regions (search strategies that only differ on long axes)
+            axes.push(Axis::new("log80".into(), (1..=80).map(|i| (i as f64).ln()).collect()));
+            axes.push(Axis::new("wave120".into(), (0..120).map(|i| i as f64 + 2.5 * (i as f64 * 0.35).sin()).collect()));
+            axes.push(Axis::new("sqrt60".into(), (0..60).map(|i| (16.0 * i as f64).sqrt()).collect()));
+        }
         for a in axes {
             for rev in [false, true] {
                 jobs.push(Job { ax: a.clone(), ay: None, f32, rev });
